@@ -126,14 +126,17 @@ def chaining(prog: Program, rep) -> None:
     L = solve_loop(prog)
     sv, ff = L.fi, L.ff
     sa = L.step_args()
+    lam = L.names()["lamb"]
     dtp = [p for p in L.compute_step.params if p != "self"][3]
     v = sa[dtp]
-    ok = isinstance(v, ast.BinOp) and isinstance(v.op, ast.Div) and const_value(v.left) == 1 and U(v.right).startswith("__loop__('lamb'")
+    ok = lam is not None and isinstance(v, ast.BinOp) and isinstance(v.op, ast.Div) and const_value(v.left) == 1 and U(v.right).startswith(f"__loop__('{lam}'")
     rep.check(ok, "lambda-chaining", sv.qualname, "dt argument of _compute_step", f"the trial uses dt = 1/lamb of the carried lamb (found {U(v)[:80]})", sv.loc(L.step_calls[0]))
-    d0 = L.last_def_before_loop("lamb")
+    if lam is None:
+        return
+    d0 = L.last_def_before_loop(lam)
     rep.check(d0 is not None and U(ff.resolved(d0.stmt, d0.stmt.value)) == "self.params.lamb_init", "lambda-chaining", sv.qualname, short(d0.stmt) if d0 else "",
               "lamb starts at params.lamb_init", sv.loc(d0.stmt) if d0 else sv.loc())
-    stores = L.stores_in_loop("lamb")
+    stores = L.stores_in_loop(lam)
     ok1 = len(stores) == 1
     rep.check(ok1, "lambda-chaining", sv.qualname, "lamb = ...", f"lamb has exactly one definition inside the loop (found {len(stores)})", sv.loc(L.loop))
     if not ok1:
@@ -142,14 +145,16 @@ def chaining(prog: Program, rep) -> None:
     val = U(ff.resolved(s.stmt, s.stmt.value))
     rep.check(val.endswith(".lamb") and "_compute_step(" in val and "__phi__" not in val, "lambda-chaining", sv.qualname, short(s.stmt),
               "the next lamb is exactly the value returned by this trial", sv.loc(s.stmt))
-    # on every back-edge path: the lamb definition happens once and is followed by the cap test
-    is_def = lambda n: n is s.stmt
-    is_step = lambda n: is_method_call(n, "_compute_step")
+
     def is_cap_test(item):
-        if item[0] != "test" or item[2] is not False:
+        if item[0] != "test":
             return False
         at = atoms_of(item[1], True)
-        return len(at) == 1 and at[0][0] == "<=" and at[0][1].endswith("lamb_max") and at[0][2] == "lamb"
+        if len(at) != 1 or item[2] is not False:
+            # mirrored form `params.lamb_max <= lamb` negated, or nested: accept either polarity that leaves `lamb < lamb_max` on the path
+            at2 = atoms_of(item[1], item[2])
+            return len(at2) == 1 and at2[0][0] == "<" and at2[0][1] == lam and at2[0][2].endswith("lamb_max")
+        return at[0][0] == "<=" and at[0][1].endswith("lamb_max") and at[0][2] == lam
     bad = None
     for p in L.paths:
         if p.end not in ("fall", "continue"):
@@ -160,10 +165,9 @@ def chaining(prog: Program, rep) -> None:
             break
         caps = [i for i, it in enumerate(p.items) if is_cap_test(it) and i > idx[0]]
         if not caps:
-            bad = "a path from `lamb = step_result.lamb` to the next trial does not pass the lamb_max test"
+            bad = "a path from the new lamb to the next trial does not pass the lamb_max test"
             break
     rep.check(bad is None, "lambda-cap", sv.qualname, short(s.stmt), "every completed iteration defines lamb once and then passes the test `lamb >= params.lamb_max`" + (f" ({bad})" if bad else ""), sv.loc(s.stmt))
-    # the raise is guarded by exactly that test
     raises = [q for q in ff.order if L.in_loop(q) and isinstance(q.stmt, ast.Raise)]
     cap = [q for q in raises if any(f[0] == "<=" and f[1] == "self.params.lamb_max" for f in q.facts)]
     rep.check(len(cap) == 1, "lambda-cap", sv.qualname, "raise", f"the loop has exactly one lamb_max abort (found {len(cap)})", sv.loc(L.loop))
